@@ -13,10 +13,10 @@ import (
 	"strings"
 
 	"github.com/whoisnian/glb/tasklane"
-	"github.com/whoisnian/glb/zzverif/vatomic"
-	"github.com/whoisnian/glb/zzverif/vctx"
-	"github.com/whoisnian/glb/zzverif/vsched"
 	"verif/engine/sdrive"
+	"verif/engine/shim/vatomic"
+	"verif/engine/shim/vctx"
+	"verif/engine/shim/vsched"
 	"verif/engine/vcommon"
 )
 
